@@ -450,7 +450,8 @@ fn build_linker_chain(lc: &Value) -> Value {
     };
     // base = (phdr & !0xfff) - p_vaddr(of PT_LOAD with offset 0) ; we use link-time addresses = offsets from `area`
     ph(0, 6, 0x40, 0x40, 3 * 56); // PT_PHDR
-    ph(1, 1, 0, 0, 4 * PAGE as u64); // PT_LOAD offset 0 vaddr 0
+    let load_vaddr = lc.get("load_vaddr").and_then(|v| v.as_u64()).unwrap_or(0);
+    ph(1, 1, 0, load_vaddr, 4 * PAGE as u64); // PT_LOAD offset 0 (its p_vaddr is subtracted from the base)
     ph(2, 2, (dynamic - area) as u64, (dynamic - area) as u64, 0x100); // PT_DYNAMIC
     let phnum = 3 + lc.get("phnum_extra").and_then(|v| v.as_u64()).unwrap_or(0);
     // dynamic: DT_NEEDED(1), DT_DEBUG(21) = &r_debug, DT_NULL
@@ -486,17 +487,25 @@ fn build_linker_chain(lc: &Value) -> Value {
     let mut entries = Vec::new();
     for (i, nm) in names.iter().enumerate() {
         let at = lmaps + i * 40;
+        let at_end = lc.get("name_at_end").and_then(|v| v.as_bool()).unwrap_or(false) && i + 1 == n && !nm.is_empty();
+        if at_end {
+            np = area + 4 * PAGE - nm.len();
+        }
         let name_ptr = if nm.is_empty() { 0 } else { np };
         if !nm.is_empty() {
             unsafe { std::ptr::copy_nonoverlapping(nm.as_ptr(), np as *mut u8, nm.len()) };
-            np += nm.len() + 1;
+            if !at_end {
+                np += nm.len() + 1;
+            }
         }
         let l_addr = 0x1000_0000u64 * (i as u64 + 1);
         let l_ld = l_addr + 0x2000;
         w64(at, l_addr);
         w64(at + 8, name_ptr as u64);
         w64(at + 16, l_ld);
-        let next = if i + 1 < n {
+        let next = if lc.get("selfloop").and_then(|v| v.as_bool()).unwrap_or(false) && i + 1 == n {
+            at
+        } else if i + 1 < n {
             lmaps + (i + 1) * 40
         } else if lc.get("cyclic").and_then(|v| v.as_bool()).unwrap_or(false) {
             lmaps
